@@ -7,6 +7,7 @@ import OH.Driver.C14
 import OH.Driver.C15
 import OH.Driver.Cal
 import OH.Driver.Tz
+import OH.Driver.Nz
 /-
 `ohdriver`: reads protocol lines on stdin, prints one verdict line per input line.
 Only core + OH.Model/OH.Driver imports (no Mathlib), so it links as a `lean_exe`.
@@ -24,6 +25,7 @@ def dispatch (op : String) (args impl : List String) : String :=
     else if op.startsWith "cal." then OH.Driver.C15.handle op args impl
     else if op.startsWith "chr." then OH.Driver.Cal.handle op args impl
     else if op.startsWith "tz." then OH.Driver.Tz.handle op args impl
+    else if op.startsWith "nz." then OH.Driver.Nz.handle op args impl
     else none
   match r with
   | some v => v
